@@ -116,6 +116,24 @@ pub fn run(rec: &mut Recorder, w: &mut World, tier: &str, seed: u64) {
         if fields.iter().any(|f| f.contains(',')) { rec.nontrivial_case(&line); }
         if i < 2 { rec.sample(format!("csv {:?} -> {}", line, out)); }
     }
+    // ---- (b') what the text adapters write parses back to the same rules: save_policy then load_policy through the string
+    //      adapter (separator ", ") and the file adapter (separator ","), values with commas followed or not by a blank ----
+    let wvals = ["alice", "a,b", "x, y", "d é", "中", "data1,data2", "k=v", ",", "a, b,c"];
+    let m_acl = model_of(&ks[0], E_ALLOW, false, "", false);
+    let n_wr = (if tier == "thorough" { 1500 } else { 150 }) * rec.budget as usize;
+    for _ in 0..n_wr {
+        let kind = *rng.pick(&["string", "file"]);
+        rec.begin();
+        new_enforcer(rec, w, &m_acl, kind, &[], "", false);
+        rec.exec(w, "e.auto\tsave\tfalse");
+        for _ in 0..1 + rng.below(4) { let r: Vec<String> = (0..3).map(|_| rng.pick(&wvals).to_string()).collect(); rec.exec(w, &MOp::Add("p".into(), "p".into(), r).line()); }
+        let before = rec.exec(w, "e.pol");
+        let (s1, l1) = (rec.exec(w, "e.save"), rec.exec(w, "e.load"));
+        let after = rec.exec(w, "e.pol");
+        if s1 != "ok" || l1 != "ok" || before != after { rec.fail("written-text-does-not-parse-back", format!("[{} adapter] save -> {}, load -> {}: {} became {}", kind, s1, l1, before, after)); }
+        rec.count(&format!("write-parse:{}", kind));
+        rec.nontrivial_case(&format!("wr|{}|{}", kind, before));
+    }
     // ---- (c) totality: grammar-mutated and noise texts; never a panic ----
     let n_noise = (if tier == "thorough" { 20000 } else { 2000 }) * rec.budget as usize;
     let base = layout(&mut rng, &canonical(&model_of(&ks[4], E_ALLOW, false, "", false)), false);
